@@ -21,6 +21,8 @@ EXTRA = {
     "lists": b"# T\n\n* a\n+ b\n  1. c\n  1. d\n-  e\n",
     "links": b"# T\n\n[ text ]( /url ) and ![](/img) and <http://x.y> and http://bare.example\n\n[foo]: /url\n[foo]: /dup\n",
     "html-and-code": b"# T\n\n<div>html</div>\n\n```\ncode without language\n```\n\n    indented   \n\n~~~text\nx\n~~~\n",
+    "quote-setext-then-list": b"> Release notes\n> -------------\n>\n> * first change\n> * second change\n\n1. > Nested title\n   > ===\n   > - a\n",
+    "list-setext-then-quote": b"- Title in item\n  ---\n\n  > - q\n  >   r\n\n   * over\n"
 }
 
 
